@@ -1,4 +1,4 @@
-CONSTANTS MaxScript = 0 MaxN = 9 Dev = {"PathLen", "SkipCount"}
+CONSTANTS MaxScript = 0 MaxPause = 0 MaxN = 9 Dev = {"PathLen", "SkipCount"}
 INIT FileInit
 NEXT ImplNext
 INVARIANT JudgeImpl
